@@ -25,6 +25,8 @@ SRC = {
     "leafpos": [P + "leaf_blocks/*.py", P + "general/position_marker.py", P + "container_blocks/container_block_leaf_processor.py",
                 P + "container_blocks/container_block_processor.py", P + "general/tab_helper.py", P + "tokens/markdown_token.py"],
     "bqcount": [P + "block_quotes/block_quote_count_helper.py"],
+    "regenleaf": [P + "transform_markdown/transform_to_markdown.py", P + "transform_markdown/markdown_transform_context.py", P + "tokens/*.py",
+                  P + "general/parser_helper.py", P + "extensions/front_matter_markdown_token.py", P + "extensions/pragma_token.py"],
     "inlineloop": [P + "inline/inline_processor.py", P + "inline/inline_text_block_helper.py", P + "inline/inline_line_end_helper.py",
                    P + "inline/inline_handler_helper.py", P + "inline/inline_request.py", P + "inline/inline_response.py", P + "inline/inline_helper.py",
                    P + "inline/inline_backslash_helper.py", P + "inline/inline_backtick_helper.py", P + "inline/inline_character_reference_helper.py",
@@ -168,4 +170,27 @@ def inlineloop(ctx):
     cov["excluded_point_note"] = ("documents on which the REAL positions are wrong for the reasons the excluded hypotheses of inline_loop_positions_partial name "
                                   "(positions_excluded_multiline / positions_excluded_setext): root causes of the known family F-C05-INLINECOL; decided at document level by C05's own oracle")
     _store(ctx, "inlineloop", cov, t0)
+    return cov
+
+
+def regenleaf(ctx):
+    """Faithful model of the container-free Markdown regenerator (TransformToMarkdown.transform main loop, final-newline correction, every leaf /
+    inline rehydrate handler) vs the real transform on serialised real and field-mutated token streams (Verif.Props.RegenLeaf)."""
+    import regenleaflib
+    t0 = time.time()
+    cov = dict(regenleaflib.run(ctx, ctx.block_quick(SRC["regenleaf"])))
+    dis, fail = cov.pop("disagreements"), cov.pop("failing_inputs")
+    for d in dis[:3]:
+        case = {"doc": d["doc"]} if isinstance(d, dict) and d.get("doc") is not None else {"regenleaf_request": str(d)[:400]}
+        ctx.report(case, "regenleaf-disagreement",
+                   {"detail": {k: str(v)[:400] for k, v in d.items()} if isinstance(d, dict) else str(d)[:800],
+                    "oracle": "real TransformToMarkdown().transform(tokens) (whole text, per-token contributions, exception kind and call site) == "
+                              "Verif.Model.RegenLeaf on the same serialised stream; WF streams do not raise"})
+    cov["disagreements"] = len(dis)
+    cov["real_roundtrip_failures_container_free"] = len(fail)
+    cov["real_roundtrip_failure_samples"] = [str(f)[:200] for f in fail[:6]]
+    cov["real_roundtrip_note"] = ("container-free documents whose regenerated text differs from the source: pinned-tree families F-THORN, F-SETEXT-TRAILWS, F-FENCE-TRAILWS, "
+                                  "F-RT-EMAIL-NEWLINE, F-RT-EMPTY-TITLE, F-RT-INPUTS (each reproduced by the model: stream-level witnesses in Verif.Props.RegenLeaf); decided at "
+                                  "document level by C02's own round-trip oracle and its listed inputs")
+    _store(ctx, "regenleaf", cov, t0)
     return cov
